@@ -617,12 +617,15 @@ class ReadWindRec(ReadOne3d):
     FORMATS = {'wind': ('PseudoNetCDF.camxfiles.wind.Read', 'wind',
                         'PseudoNetCDF.camxfiles.wind.Memmap', 'wind')}
 
-    def __init__(self, nz, T, rows, cols, step=100):
+    def __init__(self, nz, T, rows, cols, step=100, stagger=True):
         ReadOne3d.__init__(self, nz, T, rows, cols, step, 'wind')
+        self.stagger = stagger
+        if not stagger:
+            self.name = self.name[:-1] + ',8-byte time header]'
 
     def _mk_layout(self, date0, time0):
         return layouts.WindLayout(self.nz, self.T, self.rows * self.cols, 1,
-                                  date0, time0, True, self.step)
+                                  date0, time0, self.stagger, self.step)
 
     def sym(self, ctx, h):
         sp = self.space()
@@ -785,4 +788,6 @@ def obligations(tier):
         wd += [(3, 2, 2, 2), (2, 4, 1, 4, 600), (1, 6, 1, 2, 1200)]
     for g in wd:
         obs.append(ReadWindRec(*g))
+    # old files without the stagger word in the time header
+    obs.append(ReadWindRec(2, 3, 1, 3, 100, False))
     return obs
